@@ -84,6 +84,20 @@ def cutAtNL (data : Bytes) (off len : Nat) : List (Nat × Nat) :=
 def coverMask (n : Nat) (rs : List (Nat × Nat)) : List Bool :=
   (List.range n).map fun i => rs.any fun r => decide (r.1 ≤ i) && decide (i < r.1 + r.2)
 
+/-- the bytes `[off, off+size)` of `content` are matched by the substring atom `pattern`: same length, inside the
+    content, byte for byte equal — up to the case of ASCII letters when the atom is case-insensitive (ASCII texts) -/
+def occursAt (pattern content : Bytes) (off size : Nat) (caseSensitive : Bool) : Bool :=
+  size == pattern.length && decide (off + size ≤ content.length) &&
+  (List.zip pattern (Bytes.slice content off (off + size))).all fun (p, c) =>
+    if caseSensitive then p == c else asciiLower p == asciiLower c
+
+/-- what the statement demands of the verifier's verdict `res` (`some size` = accepted with that match length): it
+    accepts exactly the real occurrences, with the right length -/
+def checkVerify (pattern content : Bytes) (off : Nat) (caseSensitive : Bool) (res : Option Nat) : Bool :=
+  match res with
+  | some size => occursAt pattern content off size caseSensitive
+  | none => !occursAt pattern content off pattern.length caseSensitive
+
 /-- which exactness clause applies to the query -/
 inductive QKind where
   | multi                    -- several atoms: only the general clauses
